@@ -818,7 +818,9 @@ func c01Code(r *vf.Rand, odd bool) int {
 
 func c01GenCase(r *vf.Rand) c01Case {
 	g := &c01Gen{r: r, odd: r.Chance(10), calm: r.Chance(45)}
-	g.opts = stacks.GenOpts{Odd: g.odd, ArgBoost: 20, StdPct: 12}
+	// (no RedirectError values with 1xx/2xx or invalid codes in the outcome vectors: outside the hypotheses, and a 1xx
+	// status is not observable on a ResponseRecorder; the necessity of the hypothesis is a theorem's witness)
+	g.opts = stacks.GenOpts{ArgBoost: 20, StdPct: 12}
 
 	c := c01Case{}
 	c.R = stacks.Respond{
@@ -877,6 +879,24 @@ func c01GenCase(r *vf.Rand) c01Case {
 
 	for i, m := 0, r.Intn(5); i < m; i++ {
 		rl.EH = append(rl.EH, g.eh())
+	}
+
+	if len(rl.SC) == 0 {
+		// no authenticator, no subject: a condition reading Subject.ID could not be evaluated
+		noSubject := func(d *c01Cond) {
+			if d.Real && d.RealKind == "subject" {
+				g.cid++
+				d.RealKind, d.CID = "hdr", g.cid
+			}
+		}
+
+		for i := range rl.SH {
+			noSubject(&rl.SH[i].If)
+		}
+
+		for i := range rl.FI {
+			noSubject(&rl.FI[i].If)
+		}
 	}
 
 	c.Rule = rl
